@@ -54,6 +54,12 @@ CHECKS = {
    design_ref="DESIGN.md section 4 C15",
    note="ASSUMED: mpmath's _normalize contract (round to prec bits, ties to even, odd mantissa, bc = bit_length) - only consequences are used; E2 models dtype(int) and numpy.ldexp (bit-vector encoder, cross-checked against NumPy). Not under contract: evaluation of the user function inside mpmath and its double rounding; subnormal results (the statement only requires normal results to be nearest).",
    technique="contract-based deductive verification: symbolic execution of the real code object with the mpmath callee replaced by its contract; per-path VCs in QF_BV/FP (z3); finite-case option plumbing"),
+ "C08": dict(
+   category="proof",
+   text="Structural induction over the graph with an exhaustively enumerated induction step: for every kind the NumPy target prints and every tuple of operand dtype classes of a well-typed program (float16/32/64, complex64/128, booleans; all mixed pairs for arithmetic, eq/ne and select; one extra level where get_type and is_complex interact), the real static inference on real nodes equals the dtype produced by executing the code the real printer emits at debug level 1 (the emitted type assertions are live); base cases: numeric and named constants like every dtype, argument casts, up/downcast.",
+   design_ref="DESIGN.md section 4 C08",
+   note="Assumed: NumPy result dtypes depend only on operand dtypes (NEP 50) - one witness per dtype tuple decides a case; compositionality of get_type. Exhaustive finite case analysis, not SMT. Known findings (open): maximum/minimum of operands of different widths (the builtin max/min returns an operand unchanged). Integer, list/item and bitwise kinds not covered.",
+   technique="contract-based verification by exhaustive abstract case analysis: static type (real get_type) vs dtype of the executed emitted code, per kind and operand dtype tuple; induction over the graph"),
 }
 NA_PENDING = "check not built yet in this session (planned, see DESIGN.md section 4)"
 NA = {
